@@ -124,4 +124,29 @@ CHECKS = {
               "compared with the model's prediction; persistent backends are closed and reopened on the reopen edges (LMDB: new handle and real environment close)."),
         design_ref="DESIGN.md section 7 C17",
         note="Value space (u64 ids, payload bytes) covered by rotating boundary values, not exhaustively. Quick tier samples every 8th edge on SQLite/LMDB."),
+    "C02": dict(
+        engine="tlc + h-ec",
+        technique="TLC exhaustive model checking of Keyspace.tla (actor + storage with every storage outcome) + edge-complete replay on a real KeyspaceActor over a fault-injecting MemStore",
+        text=("Keyspace.tla models each actor message as will_apply filter -> storage call (ok / failed with nothing written / failed part-way with the reported ids "
+              "written) -> set update, with arbitrary timestamps, both sources, re-deliveries and bulk requests carrying the same key twice; TLC checks the "
+              "agreement invariant in every reachable state. Every transition is re-executed on a real actor put into the transition's source state; "
+              "the set (Serialize reply) and storage (iter_metadata/get incl. bytes) are read back and must describe the same thing."),
+        design_ref="DESIGN.md section 7 C02",
+        note="Bounds: 2 keys, 1-2 origins, 3-4 time values, 2-3 requests, bulk size 2. MemStore behind the fault wrapper; backends' own fidelity is C17."),
+    "C07": dict(
+        engine="tlc + h-ec",
+        technique="TLC exhaustive model checking of Keyspace.tla with crash points after and inside requests + edge-complete replay (real group abandoned, load_states_from_storage on the same storage)",
+        text=("Same model as C02 with Crash after any request and between the storage write and the set update of a single request, followed by Restart = "
+              "load_states_from_storage. TLC checks that the rebuilt set is exactly what storage holds and that every acknowledged mutation is still "
+              "visible; every crash edge is reproduced on the real code with a storage wrapper that parks the call after the inner write."),
+        design_ref="DESIGN.md section 7 C07",
+        note="Crash inside bulk requests is not modelled (single requests only); persistent backends' reopen is covered by C17; convergence after restart by C01."),
+    "C19": dict(
+        engine="tlc + h-ec",
+        technique="TLC-generated population of set states (MC_OrswotOps state graph) transferred through the real ReplicationService/ReplicationClient; undecodable states injected by a fake server",
+        text=("The specification supplies the population: every distinct reachable set state of the bounded universes is rebuilt on a real set, served by the real "
+              "GetState handler and fetched by the real client; sender and receiver are compared on lookups, tombstones, accept/refuse decisions for every "
+              "probe operation and the internal projection. Inflated states (up to 20 000 keys / 200 origins) and undecodable states complete the picture."),
+        design_ref="DESIGN.md section 7 C19",
+        note="The specification cannot prove anything about rkyv; it provides the states and the equality oracle (section 11)."),
 }
